@@ -261,6 +261,27 @@ def run(ctx):
             else:
                 script = REPLAY_REFUSE.format(k1=k1[0].name, i1=k1[1], k2=k2[0].name, i2=k2[1], op=nm, n1=n1, n2=n2)
                 ctx.violation("C10:" + name, f"{nm} accepted vectors of systems {k1[0].name}#{k1[1]} (length {n1}) and {k2[0].name}#{k2[1]} (length {n2})", script)
+    # variadic sums and differences: an offending operand in ANY position must be refused
+    Cs = systems[(CoordinateSystem.System.CARTESIAN, 0)]
+    for op_nm, f in (("add", A.add_cartesian_vectors), ("subtract", A.subtract_cartesian_vectors)):
+        for (kb, sb) in systems.items():
+            if sb is Cs:
+                continue
+            for n_ops in (3, 4):
+                for pos in range(n_ops):
+                    vs = [Vector(_syms(f"p{i}", 2), sb if i == pos else Cs) for i in range(n_ops)]
+                    n_ref += 1
+                    name = f"refuse_{op_nm}_variadic[{n_ops} operands, #{pos} in {kb[0].name}{kb[1]}]"
+                    try:
+                        f(*vs)
+                        refused = False
+                    except (TypeError, ValueError):
+                        refused = True
+                    if refused:
+                        ctx.ob(name, "discharged", nontrivial=False)
+                    else:
+                        ctx.violation("C10:" + name, f"{op_nm} of {n_ops} vectors accepted operand #{pos} given in system {kb[0].name}#{kb[1]} among Cartesian#0 operands",
+                                      REPLAY_VARIADIC.format(op=op_nm, k=kb[0].name, i=kb[1], n=n_ops, pos=pos))
     ctx.extra["refusal_combinations"] = n_ref
     ctx.extra["exhaustive_over_lengths"] = True
 
@@ -366,6 +387,25 @@ if bad:
     print("REPRODUCED: law", law, "fails for a,b,c =", bad)
     sys.exit(1)
 print("law holds at the replayed point(s)")
+'''
+
+REPLAY_VARIADIC = r'''
+import sys
+import sympy as sp
+from symplyphysics.core.vectors import arithmetics as A
+from symplyphysics.core.vectors.vectors import Vector
+from symplyphysics.core.coordinate_systems.coordinate_systems import CoordinateSystem, coordinates_transform
+S = CoordinateSystem.System
+C = CoordinateSystem(S.CARTESIAN)
+k, i, n, pos = "{k}", {i}, {n}, {pos}
+other = coordinates_transform(C, getattr(S, k)) if i == 2 else (CoordinateSystem(getattr(S, k), C.coord_system) if i == 3 else CoordinateSystem(getattr(S, k)))
+vs = [Vector(sp.symbols(f"p{{j}}_0:2", real=True), other if j == pos else C) for j in range(n)]
+f = dict(add=A.add_cartesian_vectors, subtract=A.subtract_cartesian_vectors)["{op}"]
+try:
+    r = f(*vs)
+except (TypeError, ValueError) as e:
+    print("refused:", e); sys.exit(0)
+print("REPRODUCED: {op} of", n, "operands accepted operand", pos, "given in another system:", getattr(r, "components", r)); sys.exit(1)
 '''
 
 REPLAY_REFUSE = r'''
